@@ -26,6 +26,11 @@ type Spec struct {
 	HangViolation    *regexp.Regexp // watchdog dump matching this is a violation, else inconclusive
 	MaxSamples       int
 	CaseTimeoutS     int
+	// Extra: an additional pass of the same engine with its own -test.run and race setting
+	// (e.g. a concurrency test that needs -race next to a memory-heavy test that must not have it).
+	ExtraRun    string
+	ExtraRace   bool
+	ExtraShards int
 	LevelText        string
 	LevelNote        string
 	Technique        string
@@ -148,7 +153,8 @@ var specs = map[string]Spec{
 		MaxSamples:  2,
 	},
 	"C20": {
-		Engine: "fwdsim", Run: "^TestMeta$", Race: false,
+		Engine: "fwdsim", Run: "^TestMeta$", Race: false, ExtraRun: "^TestMetaConcurrent$", ExtraRace: true, ExtraShards: 16,
+		RaceViolation: regexp.MustCompile(`ReplicationStreamObserver\)\.(ReportStreamValue|PrintActiveStreams)`),
 		QuickShards: 16, ThoroughShards: 16, QuickWatchdog: 10 * time.Minute, ThoroughWatchdog: 60 * time.Minute,
 		MemGB: 12, CaseTimeoutS: 60,
 		HangViolation: regexp.MustCompile(`ReplicationStreamObserver\)\.ReportStreamValue`),
@@ -159,7 +165,7 @@ var specs = map[string]Spec{
 		DesignRef: "DESIGN.md §4 C20",
 		Rule:      "cases = mode x (id position x boundary/wrapping/malformed value | pairs | random int32); each case = hostile open + follow-up well-formed stream + conservation check; distinct = distinct (mode, metadata) combinations; all non-trivial",
 		Assumptions: []string{"in-memory streams; fake serving cluster accepts every shard id", "ids up to 2^28 (largest LCM of two supported shard counts) may legitimately allocate bookkeeping; the child runs under ulimit -v 12 GB"},
-		QuickFloors: map[string]int64{"hostile_opens": 700, "follow_up_served_end_to_end": 600},
+		QuickFloors: map[string]int64{"hostile_opens": 700, "follow_up_served_end_to_end": 600, "concurrent_rounds_conserved": 1000},
 		MaxSamples:  3,
 	},
 	"C08": {
